@@ -360,6 +360,13 @@ func (fr *Frame) applyContract(c *Contract, fn *ssa.Function, key string, args [
 	}
 	// frame
 	fr.havocForCall(c, fn, key, names, pre)
+	if _, ok := c.Attrs["havoc-args"]; ok {
+		// external function that writes through its arguments (e.g. a pointer
+		// boxed in an interface): everything reachable from them is unknown
+		for _, a := range args {
+			fr.havocReachable(a, 1)
+		}
+	}
 	// results
 	var rv *Val
 	if res == nil && sig != nil {
